@@ -31,10 +31,15 @@ def windows(S, tier="thorough"):
     return sorted(x for x in s if x > 0)
 
 
-def build_world(S, elem, struct_size, name_len, pers, choices=("rfrag",), tier="thorough"):
+def big_element_sizes(S):
+    """Structure sizes around and above one fragment: a single element does not fit one request."""
+    return (S - 28, S - 20, S - 16, S - 12, S, S + 100, 2 * S + 200)
+
+
+def build_world(S, elem, struct_size, name_len, pers, choices=("rfrag",), tier="thorough", sizes=None):
     import pycomm3
 
-    sizes = windows(S, tier)
+    sizes = sizes or windows(S, tier)
     proj = projgen.p5_ladder(sizes, elem=elem, struct_size=struct_size, name_len=name_len)
     fill_image(proj, 0)
     ctl = logix.LogixController(proj, pers, None, choices=choices)
@@ -81,6 +86,8 @@ def shards(tier, seed):
                         continue  # quick: three element kinds at 4000; thorough: all
                     sh.append(("ladder", S, pers, elem, ss, nl))
             sh.append(("mixed", S, pers))
+        for ss in big_element_sizes(S):
+            sh.append(("ladder", S, "v20" if ss % 8 else "v32", None, ss, 3, "big"))
     return sh
 
 
@@ -92,8 +99,9 @@ def run_shard(shard, tier, seed):
     rep = Report()
     kind = shard[0]
     if kind == "ladder":
-        _, S, pers, elem, ss, nl = shard
-        proj, ctl, t, w, d, r = build_world(S, elem or "DINT", ss, nl, pers, tier=tier)
+        _, S, pers, elem, ss, nl = shard[:6]
+        big = len(shard) > 6
+        proj, ctl, t, w, d, r = build_world(S, elem or "DINT", ss, nl, pers, tier=tier, sizes=[ss, 2 * ss, 3 * ss] if big else None)
         cfg = (S, pers, elem or f"struct{ss}", nl)
         if r != ("ok", True):
             rep.case((cfg, "open"), outcome="open-failed")
@@ -106,7 +114,7 @@ def run_shard(shard, tier, seed):
             n = tg.elements
             total = tg.nbytes
             text = f"{tg.name}{{{n}}}" if n > 1 else tg.name
-            win = "near-1x" if abs(total - S) <= 64 else "near-2x" if abs(total - 2 * S) <= 32 else "near-3x" if abs(total - 3 * S) <= 16 else "small"
+            win = "big-element" if big else "near-1x" if abs(total - S) <= 64 else "near-2x" if abs(total - 2 * S) <= 32 else "near-3x" if abs(total - 3 * S) <= 16 else "small"
             for path in ("single", "multi-first", "multi-last"):
                 lst = [text] if path == "single" else [text, "small"] if path == "multi-first" else ["small", text]
                 idx = lst.index(text)
